@@ -74,6 +74,19 @@ class Gen(object):
         self.key = 0
         self.faults = {}
         self.ovval = 100
+        self.kind_w = None
+        if prof.get("kind_skew"):
+            self.kind_w = [rnd.random() ** 2 + 0.05 for _ in range(prof["kinds"])]
+
+    def pick_kind(self):
+        if self.kind_w is None:
+            return self.rnd.randrange(self.p["kinds"])
+        x = self.rnd.random() * sum(self.kind_w)
+        for k, w in enumerate(self.kind_w):
+            x -= w
+            if x <= 0:
+                return k
+        return len(self.kind_w) - 1
 
     def new_site(self, prefix):
         self.site += 1
@@ -116,7 +129,7 @@ class Gen(object):
                 return ["call", self.new_site("c"), c]
         if kind == "item":
             self.key += 1
-            k = rnd.randrange(self.p["kinds"])
+            k = self.pick_kind()
             key = "k%d" % self.key
             if rnd.random() < self.p["p_item_fault"]:
                 self.faults["%s:%s" % (k, key)] = rnd.choice(self.p["item_fault_modes"])
